@@ -61,12 +61,16 @@ TEXT["C06"] = ("Theorems over the live-record model of the block: after every hi
                "nothing. Without that condition the statement is FALSE for the code: kernel-checked counter-witness (known finding). "
                "Correspondence: instrumented value type keyed by address (construct/destroy/assign/read callbacks, address-dependent "
                "canary) over histories, assignments between unequal allocators and elements.")
-TEXT["C09"] = ("Theorems on the multi-vector model: copy construction/assignment give the target the source's size, fixed sizes, capacity "
-               "and field values and leave the source and all other vectors unchanged; move construction/assignment (stealing and "
-               "element-wise branch) give the target the source's former contents, the source is empty; swap exchanges contents; "
-               "self-assignment and self-swap change nothing; in-place operations on one vector never affect another. Correspondence: "
-               "assignment/swap/copy/move matrix over states (empty, zero-capacity, partly filled, full, moved-from) and allocator "
-               "relationships, both operands observed afterwards.")
+TEXT["C09"] = ("Refinement theorem for the whole multi-vector interface (WorldProofs.history_refines): after any history of constructions, "
+               "in-place operations, copy/move constructions, copy/move assignments, swaps and destructions over any number of vectors "
+               "(preconditions respected; allocation failures are C17) every vector represents exactly the plain sequence the same history "
+               "produces on a map from names to plain sequences; moved-from vectors are empty; nothing live is clobbered. Per-operation "
+               "theorems: copy construction/assignment give the target the source's size, fixed sizes, capacity and values and leave the "
+               "source and all other vectors unchanged; move construction/assignment (stealing and element-wise branch); swap; "
+               "self-assignment/self-swap; independence of in-place operations; copies are in canonical layout. The element-wise "
+               "move-assignment branch is covered for trivially move-constructible types in the history theorem (all types in the "
+               "per-operation theorem). Correspondence: assignment/swap/copy/move matrix over states (empty, zero-capacity, partly "
+               "filled, full, moved-from), different fixed sizes and allocator relationships, both operands observed afterwards.")
 TEXT["C10"] = ("Theorems: reserve within capacity is the identity on the whole state; capacity afterwards is max(capacity, n); size, fixed "
                "sizes and every element are unchanged at every fill level (both locators), also under repeated reserves; after a reserve beyond "
                "capacity any n elements with b payload bytes fit the new block (C02.reserve_room). Correspondence: reserves at every fill level with shrinking and growing budgets "
